@@ -1,0 +1,102 @@
+//go:build verif
+
+package rpc
+
+import (
+	"context"
+	"errors"
+
+	"github.com/logrange/logrange/api"
+	"github.com/logrange/range/pkg/utils/bytes"
+	"github.com/logrange/range/pkg/utils/encoding/xbinary"
+)
+
+// Exports for the verification harness (/verif, property C13). Pure additions, compiled only with -tags verif.
+// None of the functions recovers from a panic: the harness runs every call under its own recover and deadline.
+
+// ErrVerifC13Runaway: the iterator delivered more events than the request body has bytes.
+var ErrVerifC13Runaway = errors.New("verif: write packet iterator does not stop")
+
+// VerifC13Event is one event as wpIterator.Get hands it to the partition (Fields is the binary field.Fields).
+type VerifC13Event struct {
+	Ts     uint64
+	Msg    string
+	Fields string
+}
+
+// VerifC13DecodeWritePacket runs wpIterator.init and then Get/Next until Get fails (what a records consumer does).
+// initErr is the error of init; the events are copies (the iterator reuses its buffers).
+func VerifC13DecodeWritePacket(buf []byte) (tags string, evs []VerifC13Event, initErr error) {
+	var wpi wpIterator
+	if err := wpi.init(buf); err != nil {
+		return "", nil, err
+	}
+	ctx := context.Background()
+	for {
+		le, _, err := wpi.Get(ctx)
+		if err != nil {
+			break
+		}
+		if len(evs) > len(buf) {
+			// every event takes at least 11 bytes of the body: an iterator that delivers more events than the body has
+			// bytes would never stop (the count field is client-controlled, up to 2^32-1)
+			return wpi.tags, evs, ErrVerifC13Runaway
+		}
+		evs = append(evs, VerifC13Event{uint64(le.Timestamp), string(append([]byte{}, le.Msg...)), string(append([]byte{}, le.Fields...))})
+		wpi.Next(ctx)
+	}
+	return wpi.tags, evs, nil
+}
+
+// VerifC13EncodeWritePacket runs the client's encoder (writePacket.WritableSize + WriteTo).
+func VerifC13EncodeWritePacket(tags, fields string, evs []*api.LogEvent) []byte {
+	wp := &writePacket{tags, fields, evs}
+	var w bytes.Writer
+	w.Init(wp.WritableSize(), nil)
+	ow := &xbinary.ObjectsWriter{Writer: &w}
+	wp.WriteTo(ow)
+	return append([]byte{}, w.Buf()...)
+}
+
+// VerifC13UnmarshalLogEvent is unmarshalLogEvent with copied strings.
+func VerifC13UnmarshalLogEvent(buf []byte) (int, api.LogEvent, error) {
+	var le api.LogEvent
+	n, err := unmarshalLogEvent(buf, &le, true)
+	return n, le, err
+}
+
+// VerifC13UnmarshalQueryRequest is unmarshalQueryRequest with copied strings.
+func VerifC13UnmarshalQueryRequest(buf []byte) (int, api.QueryRequest, error) {
+	var qr api.QueryRequest
+	n, err := unmarshalQueryRequest(buf, &qr, true)
+	return n, qr, err
+}
+
+// VerifC13UnmarshalQueryResult is unmarshalQueryResult (client side) with copied strings.
+func VerifC13UnmarshalQueryResult(buf []byte) (int, api.QueryResult, error) {
+	var qr api.QueryResult
+	n, err := unmarshalQueryResult(buf, &qr, true)
+	return n, qr, err
+}
+
+// VerifC13WriteLogEvent / WriteQueryRequest / WriteQueryResult run the encoders into a fresh buffer.
+func VerifC13WriteLogEvent(ev *api.LogEvent) []byte {
+	var w bytes.Writer
+	w.Init(getLogEventSize(ev), nil)
+	writeLogEvent(ev, &xbinary.ObjectsWriter{Writer: &w})
+	return append([]byte{}, w.Buf()...)
+}
+
+func VerifC13WriteQueryRequest(qr *api.QueryRequest) []byte {
+	var w bytes.Writer
+	w.Init(getQueryRequestSize(qr), nil)
+	writeQueryRequest(qr, &xbinary.ObjectsWriter{Writer: &w})
+	return append([]byte{}, w.Buf()...)
+}
+
+func VerifC13WriteQueryResult(qr *api.QueryResult) []byte {
+	var w bytes.Writer
+	w.Init(getQueryResultSize(qr), nil)
+	writeQueryResult(qr, &xbinary.ObjectsWriter{Writer: &w})
+	return append([]byte{}, w.Buf()...)
+}
